@@ -1202,6 +1202,19 @@ stream_case(long idx, vf_rng *r)
 		}
 	}
 	bool clean = !failed && !stalled;
+	if (!clean) {
+		// The library has just been shown broken (or the connection fell
+		// apart).  The four stream threads may be inside nng calls; tearing
+		// the sockets down under them only adds hangs and crashes that are
+		// not C08's subject.  End this worker here with what it found.
+		vf_stat("cases_aborted", 1);
+		if (vf_violations() == 0) {
+			vf_harness_fail("stream %s %s: case aborted without a verdict (connection up: %d)",
+			    c->pk->name, vf_tran_names[c->tran], (int) up_at_end);
+		}
+		int code = vf_finish();
+		_exit(code != 0 ? code : 1);
+	}
 	// extra peers go away first so that none of them can become the peer
 	monsnap sa = mon_get(&c->ma), sb = mon_get(&c->mb);
 	close_extras(c);
